@@ -462,7 +462,7 @@ def plan(tier, seed, rng, broken=False):
             if big:
                 n_core, n_extra = (len(CORE), 25) if is_rollback(t) else (len(CORE), 90)
             else:
-                n_core, n_extra = (14, 2) if is_rollback(t) else (len(CORE), 8)
+                n_core, n_extra = (10, 1) if is_rollback(t) else (len(CORE), 5)
             core = CORE if n_core >= len(CORE) else rng.sample(CORE, n_core)
             sp = list(core) + rng.sample(rest, min(n_extra, len(rest)))
             out.append((long, t, sp))
